@@ -186,6 +186,9 @@ func (g *srcGen) valueSpec(kw string, d int) string {
 	case 1:
 		return g.id() + " " + g.typ(d) + " = " + g.expr(d)
 	case 2:
+		if g.r.Intn(2) == 0 {
+			return g.id() + ", " + g.id() + ", " + g.id() + " = " + g.expr(d) + ", " + g.expr(d) + ", " + g.expr(d)
+		}
 		return g.id() + ", " + g.id() + " = " + g.expr(d) + ", " + g.expr(d)
 	case 3:
 		if kw == "var" {
